@@ -1357,6 +1357,18 @@ def objcmd_stream(ctx, r, n):
                 out.traces_validated += 1
         if nontrivial and len(samples) < 2:
             samples.append({'backend': c['backend'], 'concurrent': c['concurrent'], 'cmds': [dict(x, tree=sorted(x['tree'])) if x['cmd'] == 'upload' else x for x in c['cmds']][:4]})
+    # the observed interleavings of the gathered upload tasks, replayed as schedules of the model's scheduler (`upload_interleaving_irrelevant`)
+    if ctx.drv is not None:
+        sreqs = [(c, x) for c, o in live if c.get('shape') != 'probe' for x in objcmd.schedule_requests(c, o)]
+        for (c, (i, req, want)), got in zip(sreqs, ctx.drv.ask_many([x[1] for _, x in sreqs])):
+            out.evaluations += 1
+            interleaved = any(a.split(' ', 1)[1] != b.split(' ', 1)[1] and a.startswith('exists') and b.startswith('exists') for a, b in zip(want['calls'], want['calls'][1:]))
+            out.count('objcmd:schedule:' + ('interleaved' if interleaved else 'task-after-task'))
+            if got != want:
+                out.disagreement(f'objcmd: observed order of the upload tasks\' backend calls (command #{i}) is not a complete schedule of the model with the same result',
+                                 {'kind': 'objcmd', 'case': c, 'command': i, 'model': got, 'impl': want})
+            else:
+                out.traces_validated += 1
     # the naming rule of upload_objects on pure paths (pathlib / os.path.commonpath) against `objectName`
     if ctx.drv is not None:
         pairs = [objcmd.gen_name_pair(r) for _ in range(max(60, n))]
